@@ -295,7 +295,6 @@ PROPS["C20"] = dict(
     groups=[
         K("core", ["c20::"], functions=["ElfBytes::section_data_as_{rels,relas,strtab,notes}", "ElfBytes::segment_data_as_notes", "ParsingIterator::next"],
           bounds="typed views: constant 128-byte files, header argument fully symbolic, first 2 entries; unwind 6", timeout_s=1200, jobs=8),
-        K("core", ["c20t::"], tier="thorough", functions=["ElfBytes::section_header_by_name on a generated 7-section constant file, query 0..3 symbolic ASCII bytes"], bounds="section table concrete, query symbolic", timeout_s=3300, jobs=2),
         M(["L6", "L6b", "L8", "Lbyname"], ["C20.", "L6.", "L6b."], bounds="find_common_data vs symbol_table/dynamic_symbol_table/dynamic on files with section and program tables of 1..2 entries each, every header field symbolic, at most one section of each kind, "
           "PT_DYNAMIC only together with .dynamic, no SHF_COMPRESSED (ELF64); dynamic via .dynamic == [sh_offset,sh_size) and via PT_DYNAMIC == [p_offset,p_filesz); "
           "L6b: 5-section tables holding all five common kinds in each of the 5 rotations of their order, all other header fields symbolic: every member is found and is its section's designated range; "
@@ -313,8 +312,6 @@ PROPS["C06"] = dict(
                "The feature-matrix clause has no symbolic variable: each of the 8 subsets of {alloc,std,to_str} must compile, and the --no-default-features rlib must list only core and compiler_builtins as external crates (rustc -Zls).",
     level_note="Bound: 128-byte constant file with symbolic header arguments; header bytes symbolic for open (<=66 bytes); views on <=24 symbolic bytes. Hash-table and symbol-version lookups under the stub are in the thorough tier. The feature matrix is a build obligation, not a solver verdict (stated in DESIGN).",
     groups=[
-        K("alloc", ["zn::"], tier="thorough", functions=["section_header_by_name on a generated 7-section file with non-UTF-8 / duplicate / prefix names"], stubs=_STUBS,
-          bounds="constant file, concrete absent query (every name is visited)", timeout_s=3300, extra_kani=["-Z", "stubbing"], jobs=1),
         K("alloc", ["z::", "zt::"], functions=["ElfBytes::minimal_parse and every ElfBytes accessor", "ParsingTable::{get,iter}", "StringTable::{get,get_raw}", "NoteIterator::next", "section_header_by_name on a 3-section file with a non-UTF-8 section name"], stubs=_STUBS,
           bounds="constant 128-byte file + fully symbolic SectionHeader/ProgramHeader arguments; open on <=66 symbolic bytes; views on <=24 symbolic bytes", timeout_s=1500, extra_kani=["-Z", "stubbing"], jobs=4),
         K("alloc", ["zw::"], functions=["witness: Vec::with_capacity under the same stubs must be caught"], stubs=_STUBS, bounds="n in 1..7", timeout_s=300, extra_kani=["-Z", "stubbing"],
